@@ -642,6 +642,10 @@ func (m *Machine) intrinsic(s *State, f *Frame, x *ssa.Call, name string, callee
 		m.stubs["context.WithCancel/WithTimeout: model context, deadlines never fire"]++
 		m.pushFrame(s, m.hpkg.Func("zzWithCancel"), args[:1], nil, x)
 		return nil, true
+	case name == "context.WithValue":
+		m.stubs["context.WithValue: model context in the harness runtime"]++
+		m.pushFrame(s, m.hpkg.Func("zzWithValue"), args, nil, x)
+		return nil, true
 	case name == "time.After":
 		id := s.alloc(ChanV{cap: 1, timer: true, buf: []Value{m.zero(x.Type().Underlying().(*types.Chan).Elem())}})
 		f.env[x] = Ptr{obj: id}
